@@ -5,6 +5,14 @@
 using namespace nano;
 using namespace nano::parallel;
 
+#ifdef NANO_VERIF
+std::atomic<nano::verif::pool_hook_t>& nano::verif::pool_hook()
+{
+    static std::atomic<pool_hook_t> hook{nullptr};
+    return hook;
+}
+#endif
+
 queue_t::queue_t() = default;
 
 worker_t::worker_t(queue_t& queue, size_t tnum)
@@ -21,23 +29,44 @@ void worker_t::operator()() const
 
         // wait for a new task to be available in the queue
         {
+            NANO_VERIF_POOL(pre_lock, &m_queue, 0, static_cast<long long>(m_tnum));
             std::unique_lock lock(m_queue.m_mutex);
+            NANO_VERIF_POOL(lock_acquired, &m_queue, 0, static_cast<long long>(m_tnum));
 
+#ifdef NANO_VERIF
+            m_queue.m_condition.wait(lock,
+                                     [&]
+                                     {
+                                         const auto ready = m_queue.m_stop || !m_queue.m_tasks.empty();
+                                         NANO_VERIF_POOL(pred, &m_queue, ready ? 1 : 0, static_cast<long long>(m_tnum));
+                                         return ready;
+                                     });
+#else
             m_queue.m_condition.wait(lock, [&] { return m_queue.m_stop || !m_queue.m_tasks.empty(); });
+#endif
 
             if (m_queue.m_stop)
             {
+                NANO_VERIF_POOL(clear, &m_queue, static_cast<long long>(m_queue.m_tasks.size()),
+                                static_cast<long long>(m_tnum));
                 m_queue.m_tasks.clear();
                 m_queue.m_condition.notify_all();
+                NANO_VERIF_POOL(notify_all, &m_queue, 0, static_cast<long long>(m_tnum));
+                NANO_VERIF_POOL(lock_release, &m_queue, 0, static_cast<long long>(m_tnum));
+                NANO_VERIF_POOL(worker_exit, &m_queue, 0, static_cast<long long>(m_tnum));
                 break;
             }
 
             task = std::move(m_queue.m_tasks.front());
             m_queue.m_tasks.pop_front();
+            NANO_VERIF_POOL(pop, &m_queue, 0, static_cast<long long>(m_tnum));
+            NANO_VERIF_POOL(lock_release, &m_queue, 0, static_cast<long long>(m_tnum));
         }
 
         // execute the task
+        NANO_VERIF_POOL(run_begin, &m_queue, 0, static_cast<long long>(m_tnum));
         task(m_tnum);
+        NANO_VERIF_POOL(run_end, &m_queue, 0, static_cast<long long>(m_tnum));
     }
 }
 
@@ -84,13 +113,20 @@ size_t pool_t::max_size()
 pool_t::~pool_t()
 {
     {
+        NANO_VERIF_POOL(pre_lock, &m_queue, 0, 0);
         const std::scoped_lock lock(m_queue.m_mutex);
+        NANO_VERIF_POOL(lock_acquired, &m_queue, 0, 0);
         m_queue.m_stop = true;
+        NANO_VERIF_POOL(stop_set, &m_queue, 0, 0);
+        NANO_VERIF_POOL(lock_release, &m_queue, 0, 0);
     }
     m_queue.m_condition.notify_all();
+    NANO_VERIF_POOL(notify_all, &m_queue, 0, 0);
 
     for (auto& thread : m_threads)
     {
+        NANO_VERIF_POOL(join_begin, &m_queue, static_cast<long long>(&thread - m_threads.data()), 0);
         thread.join();
+        NANO_VERIF_POOL(join_end, &m_queue, static_cast<long long>(&thread - m_threads.data()), 0);
     }
 }
